@@ -113,13 +113,14 @@ def mk_step(op, nlfix, bsfix=None):
 
 MARKUP = ['ex[a]', 'ex[a b]>ey', 'ex>ey[a]+ez', 'img', 'a', 'input[type]', 'ex[a=${1} b=${2}]', 'ex[a=${2} b=${1}]',
           'ex{${1:p} ${3}}+ey[t]', 'ul>li*901[t]', 'ex>br/+ey', 'ex{QZ1}>ey[t]', 'ex>ey{QZ1}+ez', 'ex[t=QZ1]>ey', 'ex>(ey[a]>ez)*901',
-          'ex>{QZ1}+ey', 'ex{${2:b} ${1:a}}+ey[t]', 'ex[t="${1:p} ${0}"]', 'ex{${3} ${1} ${2}}>ey[a b]']
+          'ex>{QZ1}+ey', 'ex{${2:b} ${1:a}}+ey[t]', 'ex[t="${1:p} ${0}"]', 'ex{${3} ${1} ${2}}>ey[a b]', 'ex[t=""]>ey', "ex[t='' u]"]
 # expected tabstop indices for templates without explicit fields (r = repeat count); None = only generic checks
 IMPLICIT = {
     'ex[a]': lambda r: [1, 2], 'ex[a b]>ey': lambda r: [1, 2, 3], 'ex>ey[a]+ez': lambda r: [1, 2, 3],
     'img': lambda r: [1, 2], 'a': lambda r: [1, 2], 'input[type]': lambda r: [1],
     'ul>li*901[t]': lambda r: list(range(1, 2 * r + 1)), 'ex>br/+ey': lambda r: [1],
     'ex>(ey[a]>ez)*901': lambda r: list(range(1, 2 * r + 1)),
+    'ex[t=""]>ey': lambda r: [1, 2], "ex[t='' u]": lambda r: [1, 2, 3],
 }
 CSS = ['p10', 'p', 'p+m', 'bd', 'c#f.5', 'm10-20+p']
 
@@ -211,7 +212,7 @@ def mk_end_to_end(kind, ti, syntax, lmax):
             if kind == 'markup':
                 if len(set(fields)) != len(fields):
                     return 'tabstop_numbers_collide'
-                if abbr in IMPLICIT and syntax in ('html', 'xml', 'jsx', 'vue') and fields != IMPLICIT[abbr](r):
+                if abbr in IMPLICIT and fields != IMPLICIT[abbr](r):
                     return 'tabstops_not_1_2_3_in_document_order'
                 if abbr in IMPLICIT and fields != sorted(fields):
                     return 'tabstops_not_in_document_order'
